@@ -25,6 +25,10 @@ class Divergence(Exception):
     pass
 
 
+def _headroom(n):
+    return 0 if n == 0 else _headroom(n - 1)
+
+
 def point(tag):
     """Scheduling point: called by hooks from inside thread bodies."""
     x = _CUR[0]
@@ -33,6 +37,10 @@ def point(tag):
     tid = getattr(threading.current_thread(), 'vf_tid', None)
     if tid is None or getattr(threading.current_thread(), 'vf_exec', None) is not x:
         return
+    # the hand-over below needs a few frames (semaphores are Python code); a body that is at the interpreter's
+    # recursion limit gets its RecursionError here, before any scheduler state is touched, instead of in the
+    # middle of the hand-over (which would leave the other threads waiting for ever)
+    _headroom(24)
     x._point(tid, tag)
 
 
